@@ -37,6 +37,8 @@ def generate(seed, tier):
     else:
         T = rng.randint(0, 6) if rng.random() < 0.92 else rng.randint(99, 210)
         names = ['k', 't'] + ['v%d' % i for i in range(rng.randint(1, 4))]
+        if rng.random() < 0.3:
+            names.append(rng.choice(['V0', 'V1', 'K', 'T', 'V0']))       # differs from another name by case only
         data = {}
         for g in GROUPS:
             if g == 'main' or rng.random() < 0.4:
@@ -57,6 +59,9 @@ def generate(seed, tier):
             ops.append({'op': 'csv', 'fmt': rng.choice(FMTS)})
             if rng.random() < 0.3:
                 ops.append({'op': 'names_mutate', 'how': rng.choice(['sort', 'reverse', 'clear', 'append'])})
+        elif r < 0.245 and 'fill' in ops[0]['op']:
+            # the same stored series, put into the holder again (another insertion history, same content)
+            ops.append({'op': 'reinsert', 'group': rng.choice(groups), 'series': rng.choice(names)})
         elif r < 0.27 and 'fill' in ops[0]['op']:
             ops.append({'op': 'append', 'group': rng.choice(groups), 'series': rng.choice(names), 'value': round(rng.uniform(-9, 9), 2)})
         elif r < 0.30:
@@ -72,6 +77,12 @@ def generate(seed, tier):
         else:
             ops.append({'op': 'get', 'series': rng.choice(names), 'cutoff': rng.choice([None, None, None, 0, 1, 3, T, T + 2]),
                         'group': rng.choice(groups), 'then': rng.choice([None, None, 'append', 'pop', 'set0', 'clear', 'extend'])})
+    twins = [n for n in (names if ops[0]['op'] == 'fill' else []) if n.lower() != n and n.lower() in names]
+    if twins and rng.random() < 0.6:
+        f = rng.choice(FMTS)
+        tw = rng.choice(twins)
+        ops += [{'op': 'csv', 'fmt': f}, {'op': 'reinsert', 'group': 'main', 'series': rng.choice([tw, tw.lower()])},
+                {'op': 'csv', 'fmt': f}]
     return {'kind': 'READ', 'ops': ops}
 
 
@@ -158,6 +169,11 @@ def execute(case):
         elif op == 'model_maxtime':
             model.MaxTime = o['value']
             stats['probes']['model_maxtime_changed_after_results_stored'] = 1
+        elif op == 'reinsert':
+            h = holders(model)[o['group']]
+            if o['series'] in h:
+                h[o['series']] = h.pop(o['series'])
+                stats['probes']['series_reinserted_unchanged'] = 1
         elif op == 'append':
             holders(model)[o['group']].AppendValue(o['series'], o['value'])
             ref[o['group']].setdefault(o['series'], []).append(o['value'])
